@@ -90,10 +90,16 @@ def canon (a : Annotation) : Bool :=
   canonOptMods '[' ']' a.cterm &&
   canonAdducts a.charge a.adducts
 
+/-- an annotation without residues that carries leading sections only (`{a}`, `[a]-`, `<13C>` …) -/
+def canonStartOnly (a : Annotation) : Bool :=
+  a.seq.isEmpty && canonOptMods '{' '}' a.labile && canonGlobal canonStatic a.static &&
+  canonGlobal canonIsotope a.isotope && canonOptMods '[' ']' a.unknown && canonOptMods '[' ']' a.nterm &&
+  a.internal.isNone && a.intervals.isNone && a.cterm.isNone && a.charge.isNone && a.adducts.isNone
+
 /-- canonical results of `parse`: a canonical single chain that is not a bare residue string is produced by the
 chain parser; multi-chain results have ≥ 2 canonical chains and one connection flag per junction -/
 def canonParsed : Parsed → Bool
-  | .single a => canon a
+  | .single a => canon a || canonStartOnly a
   | .multi as conns => decide (as.length ≥ 2) && as.all canon && decide (conns.length + 1 = as.length) &&
       conns.all (fun c => c.isSome)
 
